@@ -4,6 +4,7 @@ package http2
 
 import (
 	"errors"
+	"net"
 	"sync/atomic"
 	"time"
 
@@ -244,6 +245,31 @@ func (ctx *Ctx) VerifTakeBack() { ctx.takeBack() }
 
 // VerifStreamID returns the stream the request went out on (0: none yet).
 func (ctx *Ctx) VerifStreamID() uint32 { return atomic.LoadUint32(&ctx.streamID) }
+
+// VerifNewClient is createClient on a Dialer whose transport comes from dial
+// instead of TCP+TLS (see verifDial). Nothing is dialed until the first
+// RoundTrip; ConfigureClient dials one connection up front, which callers can
+// have by issuing a request.
+func VerifNewClient(dial func() (net.Conn, error), opts ClientOpts, ping time.Duration) *Client {
+	d := &Dialer{PingInterval: ping}
+	verifDialers.Store(d, dial)
+
+	cl := createClient(d, opts)
+	cl.conns.Init()
+
+	return cl
+}
+
+// VerifForgetClient drops the Dialer registration of a Client made by VerifNewClient.
+func VerifForgetClient(cl *Client) { verifDialers.Delete(cl.d) }
+
+// VerifConnCount returns how many connections the Client holds.
+func (cl *Client) VerifConnCount() int {
+	cl.lck.Lock()
+	defer cl.lck.Unlock()
+
+	return cl.conns.Len()
+}
 
 // VerifRetryable is retryable.
 func VerifRetryable(err error) bool { return retryable(err) }
